@@ -1550,12 +1550,14 @@ class rate_limit(Stream):
 
     @gen.coroutine
     def update(self, x, who=None, metadata=None):
+        self._retain_refs(metadata)
         now = time()
         old_next = self.next
         self.next = max(now, self.next) + self.interval
         if now < old_next:
             yield gen.sleep(old_next - now)
         yield self._emit(x, metadata=metadata)
+        self._release_refs(metadata)
 
 
 @Stream.register_api()
